@@ -189,8 +189,25 @@ def run(report, index, tier):
                  'keyword %r in L(ID)' % kw,
                  'the reserved word %r is not matched by the identifier '
                  'rule, so it is never classified' % kw)
-    # R06.4 ---------------------------------------------------------------
-    r4 = report.rule('R06.4', 'line index updated once per token after the '
+    line_index_rule(report, index, 'R06.4', LA)
+    report.not_decided.append('ply\'s own lexpos/value bookkeeping '
+                              '(outside the repository)')
+    report.trusted_base += [
+        'CPython re._parser', 'transcription of ply.lex rule ordering '
+        '(functions by line, strings by decreasing regex length)',
+        'ES5 7.2/7.3/7.4/7.6.1 reference sets']
+
+
+def line_index_rule(report, index, rid, LA=None):
+    """line / column bookkeeping of the lexer (shared by C06, C08, C11 and
+    C12: every recorded position depends on it)"""
+    M = models(index)
+    lm = M.lexmodel
+    mod = index.need(LEX)
+    if LA is None:
+        LA = LexAutomata(lm)
+    alpha = LA.alpha
+    r4 = report.rule(rid, 'line index updated once per token after the '
                      'column is taken; ES5 line terminator sequences',
                      floor=10)
     methods = mod.class_methods('Lexer')
@@ -267,12 +284,7 @@ def run(report, index, tier):
                  '_get_colno_lexpos(lexpos=%d) with last line start %d' % (
                      lexpos, last), 'returns %r, the 1-based column is %d'
                  % (got, want), where='lexers/es5.py:_get_colno_lexpos')
-    report.not_decided.append('ply\'s own lexpos/value bookkeeping '
-                              '(outside the repository)')
-    report.trusted_base += [
-        'CPython re._parser', 'transcription of ply.lex rule ordering '
-        '(functions by line, strings by decreasing regex length)',
-        'ES5 7.2/7.3/7.4/7.6.1 reference sets']
+    return r4
 
 
 def shorter_first(d1, d2, lookaheads1):
